@@ -72,7 +72,7 @@ pub const SPEC: Spec = Spec {
     alloc_limit: 1 << 30,
     hang_is_violation: true,
     fixed: Some(fixed),
-    fuzz: Some(FuzzSpec { target: "c17_parse", prefix: &[255, 0, 0], max_len: 2048, quick_runs: 20_000, thorough_runs: 120_000, jobs: 16 }),
+    fuzz: Some(FuzzSpec { target: "c17_parse", prefix: &[255, 0, 0], max_len: 2048, quick_runs: 20_000, thorough_runs: 400_000, jobs: 16 }),
     ..Spec::base("C17", "Human-readable encoding round-trips", case)
 };
 
